@@ -45,6 +45,12 @@ def run_stage(chk, owner=None):
                 continue
             if code == 200 and not o["has_body"]:
                 bad_rows.append(("return_value-lost", o))
+        if o["via"] == "timeout":
+            # the client's own time-out: a transport failure (never "keep the data": the request may have been processed),
+            # except that a 503/5xx status line that did arrive may be honoured
+            if o["ok"] or o["disc"] or o["restart"] or (o["save"] and code not in (408, 429, 500, 503)):
+                bad_rows.append(("client-timeout-class", o))
+            continue
         if o["via"] == "error":
             if o["ok"] or o["status"] != 0 or o["disc"] or o["restart"] or o["save"]:
                 bad_rows.append(("transport-error-class", o))
